@@ -221,6 +221,19 @@ func (rt *runtime) panicRangeError(argumentList ...interface{}) *exception {
 	}
 }
 
+// uncaughtString renders a thrown value that is not an Error object for the Go
+// error returned to the host. Converting it runs script code (toString /
+// valueOf), which may throw again or have no primitive to offer: that must not
+// turn the uncaught exception into a Go panic.
+func uncaughtString(value Value) (text string) {
+	defer func() {
+		if recover() != nil {
+			text = "uncaught exception (the thrown value cannot be converted to a string)"
+		}
+	}()
+	return value.string()
+}
+
 func catchPanic(function func()) (err error) {
 	defer func() {
 		if caught := recover(); caught != nil {
@@ -241,7 +254,7 @@ func catchPanic(function func()) (err error) {
 						return
 					}
 				}
-				err = errors.New(caught.string())
+				err = errors.New(uncaughtString(caught))
 				return
 			}
 			panic(caught)
